@@ -18,10 +18,10 @@ RULE = ('per run: (tls_enable, require_tls in {None,True,False}, require_host_au
 COMPONENTS = dict(tc.COMPONENTS, simulated=tc.COMPONENTS['simulated'] + ['TLS handshake and record layer (dsim.tls): pass-through, '
                   'handshake succeeds/fails as the plan says; certificates and the repo\'s match_id / policy code are real'])
 PROBES = ('cell.secured-session', 'cell.contact-failure', 'cell.clear-session', 'cell.tls-attempt-violates-policy', 'cell.handshake-failed',
-          'cell.peer-refuses', 'probe.cert_absent', 'probe.ip_mismatch', 'probe.uri_mismatch', 'probe.host_required', 'probe.node_required')
+          'cell.peer-refuses', 'probe.cert_absent', 'probe.ip_mismatch', 'probe.uri_mismatch', 'probe.host_required', 'probe.node_required', 'probe.dial_by_name', 'probe.dns_mismatch')
 ASSUMPTIONS = ['TLS cryptography is not simulated: the stub hands the configured peer certificate to getpeercert()',
                'ssl.match_hostname (removed in Python 3.12) is provided by the facade, see DESIGN 1.2',
-               'the agent always dials by resolved IP address, so DNS-ID is never a known reference']
+               'Agent.connect() always dials by resolved IP address; to reach the DNS-ID branch of the policy half of the runs create the active contact the way Agent.connect does but with the DNS name kept (Agent._bind_handler)']
 CHUNK = 25
 BUDGET = {'quick': 30, 'thorough': 400}
 
@@ -31,8 +31,9 @@ def _gen_cert(ch, side, own_ip, own_nid):
         return None
     ipk = ch.weighted(side + '.ip', (3, 3, 2, 1))
     ips = {0: [], 1: [own_ip], 2: ['10.9.9.9'], 3: [own_ip, '10.9.9.9']}[ipk]
-    dnsk = ch.weighted(side + '.dns', (4, 2))
-    dnss = {0: [], 1: ['host-%s.example' % side.lower()]}[dnsk]
+    dnsk = ch.weighted(side + '.dns', (3, 3, 2, 1))
+    own_dns = 'host-%s.example' % side.lower()
+    dnss = {0: [], 1: [own_dns], 2: ['other.example'], 3: ['other.example', own_dns]}[dnsk]
     urik = ch.weighted(side + '.uri', (3, 3, 2, 1))
     uris = {0: [], 1: [own_nid], 2: ['dtn://other/'], 3: ['dtn://other/', own_nid]}[urik]
     return dict(ip=ips, dns=dnss, uri=uris)
@@ -51,6 +52,7 @@ def gen(ch, tier):
         cfg['require_node_authn'] = ch.coin(side + '.rn', 1, 2)
         cfg['enable_test'] = []
     plan['tls'] = dict(
+        dial_by_name=ch.coin('byname', 1, 2),
         fail=ch.coin('hsfail', 1, 8),
         certs={side: _gen_cert(ch, side, tcpcl_pair.ADDR[side], plan['cfg'][side]['node_id']) for side in ('A', 'P')},
     )
@@ -69,6 +71,19 @@ def gen(ch, tier):
 class _Har(tcpcl_tls.TlsHarness):
 
     def do_op(self, op, _evt=None):
+        if op['op'] == 'connect' and self.plan['tls'].get('dial_by_name'):
+            # what Agent.connect() does, but keeping the DNS name the peer was dialled by as the
+            # reference identifier (Agent.connect resolves the name and passes the address on)
+            import socket as _sock
+            import tcpcl.agent
+            import ipaddress
+            agent = self.agent['A']
+            with self.wld.as_node('A'):
+                conv = tcpcl.agent.Conversation(family=_sock.AF_INET, peer_address=ipaddress.ip_address(tcpcl_pair.ADDR['P']), peer_port=4556)
+                sock = conv.make_socket()
+                hdl = agent._bind_handler(config=agent._config, sock=sock, toaddr=('host-p.example', 4556))
+                hdl.start()
+            return
         if op['op'] == 'secure?':
             path = self.contact[op['node']]
             if path is not None:
@@ -89,8 +104,9 @@ def judge(run):
     run.cells = {}
     for side in ('A', 'P'):
         peer = tc.OTHER[side]
+        peer_dns = 'host-p.example' if (side == 'A' and plan['tls'].get('dial_by_name')) else None
         want = tls_policy.predict(plan['cfg'][side], plan['cfg'][peer], plan['tls']['certs'][peer], plan['tls']['fail'],
-                                  tcpcl_pair.ADDR[peer], None)
+                                  tcpcl_pair.ADDR[peer], peer_dns)
         run.cells['cell.' + want['why']] = run.cells.get('cell.' + want['why'], 0) + 1
         sent_init = any(msg['kind'] == 'SESS_INIT' for msg in obs.wire[side])
         established = 'established' in tc.state_times(obs, side)
@@ -144,6 +160,10 @@ def describe(run):
     certs = plan['tls']['certs']
     if certs['A'] is None:
         extra['probe.cert_absent'] = 1
+    if plan['tls'].get('dial_by_name'):
+        extra['probe.dial_by_name'] = 1
+        if certs['P'] and certs['P']['dns'] and 'host-p.example' not in certs['P']['dns']:
+            extra['probe.dns_mismatch'] = 1
     for side in ('A', 'P'):
         if certs[side] and '10.9.9.9' in certs[side]['ip'] and tcpcl_pair.ADDR[side] not in certs[side]['ip']:
             extra['probe.ip_mismatch'] = 1
